@@ -101,6 +101,8 @@ class BufWorld:
         want = self.ref[fname]
         if want is MISSING:
             return got is MISSING or (got is not CORRUPT and got in ({}, [])), got, want
+        if got is MISSING and want in ({}, []):
+            return True, got, want  # an empty collection and a missing file are the same logical content
         return got is not MISSING and got is not CORRUPT and same_tree(got, plain(want)), got, want
 
     def buffer_state(self):
